@@ -577,4 +577,62 @@ Proof.
   pose proof (heap_root_min mn l _ Hh k Hkl) as H. unfold getk, heap_first in *. now rewrite He, Hk in H.
 Qed.
 
+(* ---------- all operation sequences on the array heap ---------- *)
+Inductive hop := HPush (id : N) (x : A) (v : Z) | HPop | HRemove (i : nat).
+
+Definition hstep mn l (o : hop) : list entry * option entry :=
+  match o with
+  | HPush id x v => (heap_push mn l (mkE id x v (length l)), None)
+  | HPop => heap_pop mn l
+  | HRemove i => heap_remove mn l i
+  end.
+Fixpoint hrun mn l (ops : list hop) : list entry * list (option entry) :=
+  match ops with
+  | [] => (l, [])
+  | o :: rest => let '(l1, r) := hstep mn l o in let '(l2, rs) := hrun mn l1 rest in (l2, r :: rs)
+  end.
+
+(* what one operation does to the multiset of (ID, Item, Val) triples *)
+Definition hstep_spec mn l (o : hop) (l' : list entry) (r : option entry) : Prop :=
+  match o with
+  | HPush id x v =>
+      r = None /\ (if ih_has l id then l' = l else Permutation (conts l') ((id, x, v) :: conts l))
+  | HPop =>
+      match heap_first l with
+      | None => r = None /\ l' = l
+      | Some e => exists e', r = Some e' /\ cont e' = cont e /\ (forall x, In x l -> (key mn e <= key mn x)%Z) /\
+                             Permutation (conts l) (cont e :: conts l')
+      end
+  | HRemove i =>
+      match nth_error l i with
+      | None => r = None /\ l' = l
+      | Some e => exists e', r = Some e' /\ cont e' = cont e /\ Permutation (conts l) (cont e :: conts l')
+      end
+  end.
+
+Lemma hstep_ok mn l o : hwf mn l ->
+  hwf mn (fst (hstep mn l o)) /\ hstep_spec mn l o (fst (hstep mn l o)) (snd (hstep mn l o)).
+Proof.
+  intros Hw. destruct o as [id x v| |i]; cbn [hstep hstep_spec fst snd].
+  - set (e := mkE id x v (length l)). destruct (ih_has l id) eqn:E.
+    + rewrite (push_dup mn l e Hw E). auto.
+    + destruct (push_fresh mn l e Hw eq_refl E) as [H1 H2]. auto.
+  - destruct (heap_first l) as [e|] eqn:He.
+    + destruct (pop_spec mn l e Hw He) as (e' & P1 & P2 & P3 & P4). split; [assumption|].
+      exists e'. split; [assumption|]. split; [assumption|]. split; [|assumption].
+      intros x Hx. now apply (first_min mn l e x Hw He).
+    + destruct l; [|discriminate]. cbn. split; [assumption|auto].
+  - destruct (nth_error l i) as [e|] eqn:He.
+    + destruct (remove_spec mn l i e Hw He) as (e' & P1 & P2 & P3 & P4). split; [assumption|].
+      exists e'. auto.
+    + apply nth_error_None in He. rewrite (remove_oob mn l i He). cbn. auto.
+Qed.
+
+Lemma hrun_wf mn : forall ops l, hwf mn l -> hwf mn (fst (hrun mn l ops)).
+Proof.
+  induction ops as [|o ops IH]; intros l Hw; cbn [hrun]; [assumption|].
+  destruct (hstep_ok mn l o Hw) as [Hw' _]. destruct (hstep mn l o) as [l1 r]. cbn [fst] in Hw'.
+  specialize (IH l1 Hw'). now destruct (hrun mn l1 ops).
+Qed.
+
 End HeapProofs.
